@@ -37,6 +37,18 @@ CHECKS = {
    technique="TLA+ spec SignedRequest.tla (symbolic envelopes with domain and payload type; readers transcribed) checked by TLC; every state exported as a case and executed with the real constructors/readers for 4 key types (exhaustive case-table conformance) plus byte alterations of sealed requests",
    text="TLC enumerates made-for kind x read-as kind x named provider x signing key x alteration and checks that the readers accept exactly unaltered same-domain requests signed by the named provider, returning the sealed fields; the pinned ingest reader is refuted. Every case is built with MakeIngestRequest / MakeRegisterRequest and envelope-field substitution and read with ReadIngestRequest / ReadRegisterRequest for Ed25519, secp256k1, ECDSA and RSA keys; every n-th byte of honest sealed requests is altered.",
    note="Unforgeability assumed (symbolic)."),
+ "C01": dict(level="model_checking", design="6/C01", engine="tlc+harness",
+   technique="TLA+ spec ChainSync.tla (option layer of SyncAdChain/SyncEntries, segmented loop of handle, block walk with stop-link/local/request tests) model-checked by TLC against the declarative segment definition; every configuration exported and executed as a real sync against a real Publisher (exhaustive case-table conformance)",
+   text="TLC enumerates every configuration within the bounds -- chain length, queried or explicit head, stop CID (none / on chain / = head / off chain), latest-synced, resync, subscriber / first-sync / per-call depth limits, subscriber / per-call segment sizes, every subset of pre-stored blocks, entries / single-entry / all-links entry points -- and checks that the implementation-shaped walk reports, requests, stores, returns and records exactly what the declarative reading prescribes (an off-by-one variant of the segment loop is refuted); each configuration is then run as a real sync (real chain, real Publisher in plain-HTTP and libp2p-HTTP mode with a read opener that logs served blocks, real Subscriber with exactly those options) and hook sequence, served blocks, store, returned head, latest-synced and notifications are compared.",
+   note="Bounds per tier in the evidence (quick: chains <= 4, every 4th option-layer configuration; thorough: chains <= 6, all). Hooks follow the previous link. Tree-shaped DAGs for the all-links variant are not covered."),
+ "C02": dict(level="model_checking", design="6/C02", engine="tlc+harness",
+   technique="TLA+ spec SyncFaults.tla restricted to response-body classes (bit flip, truncation, appended bytes, another valid block, empty, oversized) at every request index, model-checked by TLC (store soundness, reported-implies-verified, clean retry converges); every behaviour replayed against a real Subscriber through a body-rewriting proxy for five digest specifications, with a full re-hash audit of the destination store after every sync",
+   text="TLC checks on the implementation-shaped model that no body class at any request position of an explicit or announce-triggered, segmented or unsegmented sync gets a block committed or reported whose content differs from its CID, that the sync fails instead, and that a later honest sync converges; every terminal behaviour is executed against the real code with the body class concretised (seeded bit positions / truncation lengths / substituted chain blocks incl. the next one wanted, 64 KiB and 4 MiB bodies) for CIDs using sha2-256 (32, 20, 16 byte digests), sha2-512 and blake3, and after every sync every stored block is re-hashed with the function and length of the CID it is stored under.",
+   note="Collision freedom of >=16-byte digests assumed. Bit positions and truncation lengths are sampled per run (2 variants quick, 64 thorough), not exhaustive."),
+ "C04": dict(level="model_checking", design="6/C04", engine="tlc+harness",
+   technique="TLA+ spec SyncFaults.tla (fault kind x request index x client mode x trigger x segmentation, then a clean retry) model-checked by TLC; every behaviour replayed on a real Subscriber through a fault-injecting proxy in front of a real Publisher (behaviour replay conformance); pinned noPath latch refuted",
+   text="TLC checks for every single fault (HTTP 400/500/403/404, connection reset, short write, stall past the client timeout, caller cancellation, hook FailSync, and the body classes of C02) at every request index of explicit and announce-triggered, segmented and unsegmented syncs in both client modes that latest-synced and the notification stream are as required after the failure, that verified blocks stay, that an announced CID can be announced again, and that the clean retry ends where a fault-free run ends (pairs of faulty syncs in the thorough tier); each behaviour is executed against the real Subscriber and Publisher through the proxy, comparing result, hook calls, stored blocks, store audit, latest-synced and notifications after every sync.",
+   note="Publishers with one address; resets that net/http retries transparently are counted as tolerated; stream-transport (libp2p stream) client not exercised."),
 }
 PENDING = {
 }
